@@ -210,4 +210,82 @@ theorem waits_after_multi (cls : List Cls) (ord : List (Nat × Res))
   intro c _
   cases c <;> simp [after, base0]
 
+/-! ### the refill of the slots after the waits is the positional specification -/
+
+@[simp] theorem isMiss_hit (v : Msg) : (Cls.hit v).isMiss = false := rfl
+@[simp] theorem isMiss_pending (w : Res) : (Cls.pending w).isMiss = false := rfl
+@[simp] theorem isMiss_miss : Cls.miss.isMiss = true := rfl
+
+@[simp] theorem after_hit (v : Msg) : after (.hit v) = .ofMsg v := rfl
+@[simp] theorem after_pending (w : Res) : after (.pending w) = w := rfl
+@[simp] theorem after_miss : after .miss = .empty := rfl
+
+theorem spec_nil (cls : List Cls) : spec cls [] = cls.map after := by
+  induction cls with
+  | nil => rfl
+  | cons c cs ih => cases c <;> simp [spec, after, ih]
+
+theorem spec_noMiss (cls : List Cls) (part : List Res) (h : (cls.filter Cls.isMiss).length = 0) :
+    spec cls part = cls.map after := by
+  induction cls with
+  | nil => simp [spec]
+  | cons c cs ih =>
+    cases c with
+    | miss => simp [List.filter_cons] at h
+    | hit v => simp only [List.filter_cons, isMiss_hit] at h; simp [spec, after, ih (by simpa using h)]
+    | pending w => simp only [List.filter_cons, isMiss_pending] at h; simp [spec, after, ih (by simpa using h)]
+
+theorem spec_allMiss (cls : List Cls) (part : List Res) (h : (cls.filter Cls.isMiss).length = cls.length)
+    (hl : part.length = cls.length) : spec cls part = part := by
+  induction cls generalizing part with
+  | nil => cases part <;> simp_all [spec]
+  | cons c cs ih =>
+    have hle := List.length_filter_le Cls.isMiss cs
+    cases c with
+    | miss =>
+      cases part with
+      | nil => simp at hl
+      | cons p ps =>
+        simp only [List.filter_cons, isMiss_miss, if_true, List.length_cons] at h
+        simp [spec, ih ps (by omega) (by simpa using hl)]
+    | hit v => simp [List.filter_cons] at h; omega
+    | pending w => simp [List.filter_cons] at h; omega
+
+theorem fillSpec_after (cls : List Cls) (part : List Res)
+    (hw : ∀ w, Cls.pending w ∈ cls → w.isEmpty = false) :
+    fillSpec Res.isEmpty (cls.map after) part = spec cls part := by
+  induction cls generalizing part with
+  | nil => simp [fillSpec, spec]
+  | cons c cs ih =>
+    have ih' := fun part => ih part (fun w hw' => hw w (by simp [hw']))
+    cases part with
+    | nil => simp [fillSpec_nil, spec_nil]
+    | cons p ps =>
+      cases c with
+      | miss => simp [fillSpec, spec, after, Res.isEmpty, Res.empty, ih']
+      | hit v => simp [fillSpec, spec, after, Res.isEmpty, Res.ofMsg, ih']
+      | pending w =>
+        have := hw w (by simp)
+        simp [fillSpec, spec, after, this, ih']
+
+theorem fillSpec_after_mget (cls : List Cls) (part : List (Option Msg))
+    (hw : ∀ w, Cls.pending w ∈ cls → w.val.isSome) :
+    fillSpec Option.isNone (cls.map fun c => (after c).val) part
+      = (spec cls (part.map fun v => ⟨v, none⟩)).map Res.val := by
+  induction cls generalizing part with
+  | nil => simp [fillSpec, spec]
+  | cons c cs ih =>
+    have ih' := fun part => ih part (fun w hw' => hw w (by simp [hw']))
+    cases part with
+    | nil => simp [fillSpec_nil, spec_nil]
+    | cons p ps =>
+      cases c with
+      | miss => simp only [List.map_cons, after_miss, fillSpec, spec, Res.empty, Option.isNone_none, if_true, ih']
+      | hit v => simp only [List.map_cons, after_hit, fillSpec, spec, Res.ofMsg, Option.isNone_some, Bool.false_eq_true, if_false, ih']
+      | pending w =>
+        have := hw w (by simp)
+        have hn : w.val.isNone = false := by cases h : w.val <;> simp_all
+        simp only [List.map_cons, after_pending, fillSpec, spec, hn, Bool.false_eq_true, if_false, ih']
+
+
 end Rv.MGetCache
